@@ -1174,6 +1174,92 @@ fn observe_lookup(tera: &Tera, c: &LookupCase) -> LookupObs {
     LookupObs { routes, oracle }
 }
 
+
+// ------------------------------------------------------------------ maps inserted through serde
+
+const SERDE_KEY_TYPES: [&str; 12] = ["i8", "i16", "i32", "i64", "i128", "isize", "u8", "u16", "u32", "u64", "u128", "usize"];
+
+/// the integer (neg, magnitude) as a `$t`, if it fits
+macro_rules! conv_int {
+    ($t:ty, $neg:expr, $mag:expr) => {{
+        if !$neg || $mag == 0 {
+            <$t>::try_from($mag).ok()
+        } else if $mag <= 1u128 << 127 {
+            <$t>::try_from(($mag as i128).wrapping_neg()).ok()
+        } else {
+            None
+        }
+    }};
+}
+
+macro_rules! serde_map_of {
+    ($t:ty, $keys:expr, $btree:expr) => {{
+        let mut ins: Vec<(MathKey, Value)> = Vec::new();
+        let mut h: std::collections::HashMap<$t, String> = std::collections::HashMap::new();
+        let mut b: std::collections::BTreeMap<$t, String> = std::collections::BTreeMap::new();
+        for (i, (neg, mag)) in $keys.iter().enumerate() {
+            if let Some(x) = conv_int!($t, *neg, *mag) {
+                let mk = MathKey::I(*neg && *mag != 0, *mag);
+                if ins.iter().any(|(k, _)| *k == mk) {
+                    continue;
+                }
+                let v = format!("v{i}");
+                h.insert(x, v.clone());
+                b.insert(x, v.clone());
+                ins.push((mk, Value::normal_string(&v)));
+            }
+        }
+        let map = if $btree { Value::from_serializable(&b) } else { Value::from_serializable(&h) };
+        (map, ins)
+    }};
+}
+
+/// A Rust map whose key type is exactly `ty`, turned into a Value by the engine's serde bridge;
+/// also what was inserted, by mathematical value (decided here, not read back from the result).
+fn serde_map(ty: &str, btree: bool, keys: &[(bool, u128)]) -> Option<(Value, Vec<(MathKey, Value)>)> {
+    Some(match ty {
+        "i8" => serde_map_of!(i8, keys, btree),
+        "i16" => serde_map_of!(i16, keys, btree),
+        "i32" => serde_map_of!(i32, keys, btree),
+        "i64" => serde_map_of!(i64, keys, btree),
+        "i128" => serde_map_of!(i128, keys, btree),
+        "isize" => serde_map_of!(isize, keys, btree),
+        "u8" => serde_map_of!(u8, keys, btree),
+        "u16" => serde_map_of!(u16, keys, btree),
+        "u32" => serde_map_of!(u32, keys, btree),
+        "u64" => serde_map_of!(u64, keys, btree),
+        "u128" => serde_map_of!(u128, keys, btree),
+        "usize" => serde_map_of!(usize, keys, btree),
+        _ => return None,
+    })
+}
+
+/// MIN, MAX, 0, 1, -1, 2 and their neighbours for the width, plus a few random ones
+fn serde_key_lattice(ty: &str, rng: &mut Rng) -> Vec<(bool, u128)> {
+    let (min_mag, max): (u128, u128) = match ty {
+        "i8" => (1 << 7, (1 << 7) - 1),
+        "i16" => (1 << 15, (1 << 15) - 1),
+        "i32" => (1 << 31, (1 << 31) - 1),
+        "i64" | "isize" => (1 << 63, (1 << 63) - 1),
+        "i128" => (1 << 127, (1 << 127) - 1),
+        "u8" => (0, u8::MAX as u128),
+        "u16" => (0, u16::MAX as u128),
+        "u32" => (0, u32::MAX as u128),
+        "u64" | "usize" => (0, u64::MAX as u128),
+        _ => (0, u128::MAX),
+    };
+    let mut ks = vec![(false, 0), (false, 1), (false, 2), (false, max), (false, max - 1)];
+    if min_mag > 0 {
+        ks.extend([(true, 1), (true, 2), (true, min_mag), (true, min_mag - 1)]);
+    }
+    for _ in 0..2 {
+        let r = rng.next_u128();
+        let m = if max == u128::MAX { r } else { r % (max + 1) };
+        ks.push((min_mag > 0 && rng.chance(1, 2), m >> rng.below(100).min(120)));
+    }
+    ks
+}
+
 // ------------------------------------------------------------------ main
 
 fn model_one(env: &Env, req: &str) -> String {
@@ -1215,6 +1301,27 @@ fn replay(env: &Env, tera: &Tera, path: &str) {
             let b = parse_key_token(j["kb"].as_str().unwrap()).unwrap();
             let req = format!("key {} {}", key_token(&a), key_token(&b));
             println!("request: {req}\nimplementation: {}\nmodel: {}\nlaws: {:?}", key_pair_impl(&a, &b), model_one(env, &req), key_pair_laws(&a, &b));
+        }
+        "serde_lookup" => {
+            let ty = j["key_type"].as_str().unwrap_or("");
+            let btree = j["btree"].as_bool().unwrap_or(false);
+            let keys: Vec<(bool, u128)> = j["keys"].as_array().map(|a| a.iter().filter_map(|k| {
+                let t = k.as_str()?;
+                Some(match t.strip_prefix('-') { Some(m) => (true, m.parse().ok()?), None => (false, t.parse().ok()?) })
+            }).collect()).unwrap_or_default();
+            let probe = j["probe"].as_str().and_then(decode).expect("probe");
+            match serde_map(ty, btree, &keys) {
+                Some((map, inserted)) => {
+                    println!("{}<{ty}, String> with keys {:?} serialized by the engine: {}", if btree { "BTreeMap" } else { "HashMap" }, j["keys"], encode(&map));
+                    let c = LookupCase { map, inserted, probe };
+                    let obs = observe_lookup(tera, &c);
+                    for (route, req, got) in &obs.routes {
+                        println!("route {route}: request: {req}\n  implementation: {got}\n  model: {}", model_one(env, req));
+                    }
+                    println!("oracle: {:?}", obs.oracle);
+                }
+                None => println!("unknown key type {ty}"),
+            }
         }
         "provenance" => {
             let ti = j["text_index"].as_u64().unwrap_or(0) as usize;
@@ -1284,6 +1391,92 @@ fn main() {
     let mut total_pairs = 0u64;
     let rounds = std::env::var("VERIF_C15_ROUNDS").ok().and_then(|s| s.parse::<usize>().ok()).unwrap_or(env.budget(1, 30));
     let w = |s: &str| decode(s).unwrap();
+    // ---------------------------------------------------------------- S. maps inserted through serde
+    // Rust maps of every integer key width (HashMap and BTreeMap) serialized by the engine, then
+    // probed with the mathematically equal integer in every other encoding
+    {
+        struct SCase {
+            ty: &'static str,
+            btree: bool,
+            keys: Vec<(bool, u128)>,
+            case: LookupCase,
+        }
+        let mut scases: Vec<SCase> = Vec::new();
+        for ty in SERDE_KEY_TYPES {
+            for btree in [false, true] {
+                let lattice = serde_key_lattice(ty, &mut rng);
+                let mut sets: Vec<Vec<(bool, u128)>> = vec![lattice.clone()];
+                for _ in 0..3 {
+                    let n = 1 + rng.below(4);
+                    sets.push((0..n).map(|_| *rng.pick(&lattice)).collect());
+                }
+                for keys in sets {
+                    let Some((map, inserted)) = serde_map(ty, btree, &keys) else { continue };
+                    report.count(&format!("serde.map.{ty}"));
+                    for p in gen_probes(&mut rng, &inserted) {
+                        scases.push(SCase { ty, btree, keys: keys.clone(), case: LookupCase { map: map.clone(), inserted: inserted.clone(), probe: p } });
+                    }
+                }
+            }
+        }
+        let sobs: Vec<LookupObs> = scases.iter().map(|c| observe_lookup(&tera, &c.case)).collect();
+        let mut sreqs: Vec<String> = Vec::new();
+        let mut sidx: Vec<(usize, usize)> = Vec::new();
+        let mut reported = 0;
+        for (i, o) in sobs.iter().enumerate() {
+            report.oracle_checks += 1;
+            let c = &scases[i];
+            // what the engine stored must also be what was inserted, entry by entry
+            let stored = c.case.map.as_map().map(|m| m.len()).unwrap_or(0);
+            let mut d = o.oracle.clone();
+            if d.is_none() && stored != c.case.inserted.len() {
+                d = Some(format!("{} keys inserted, the serialized map has {stored} entries", c.case.inserted.len()));
+            }
+            report.count(&format!("serde.probe.{}", if !is_key_kind(&c.case.probe) { "notkey" } else if expected_entry(&c.case.inserted, &c.case.probe).is_some() { "hit" } else { "miss" }));
+            if let Some(d) = d {
+                report.oracle_failures += 1;
+                report.count(&format!("serde.fail.{}", c.ty));
+                if reported < 3 {
+                    reported += 1;
+                    let keys: Vec<String> = c.keys.iter().map(|(n, m)| format!("{}{m}", if *n && *m != 0 { "-" } else { "" })).collect();
+                    report.violation(
+                        "property",
+                        format!("{}<{}, String> with keys {keys:?} put in the context through serde, probed with {} ({}): {d}", if c.btree { "BTreeMap" } else { "HashMap" }, c.ty, c.case.probe, c.case.probe.name()),
+                        serde_json::json!({"family": "serde_lookup", "key_type": c.ty, "btree": c.btree, "keys": keys, "probe": encode(&c.case.probe),
+                            "serialized_map": encode(&c.case.map), "detail": {"oracle": d}}),
+                    );
+                }
+            }
+            for (r, (_, req, _)) in o.routes.iter().enumerate() {
+                sreqs.push(req.clone());
+                sidx.push((i, r));
+            }
+        }
+        let smodel = if driver_ok { driver::run_batch_parallel(&exe, &sreqs, threads).unwrap_or_default() } else { Vec::new() };
+        for (n, (i, r)) in sidx.iter().enumerate() {
+            let (route, req, got) = &sobs[*i].routes[*r];
+            report.evaluations += 1;
+            note_distinct(&mut distinct, &mut distinct_capped, &format!("serde {} {} {req}", scases[*i].ty, scases[*i].btree));
+            if !smodel.is_empty() {
+                report.model_comparisons += 1;
+                let m_ans = if (route == "attr" || route == "getf") && smodel[n] == "some U" { "none" } else { smodel[n].as_str() };
+                if m_ans != *got {
+                    report.model_disagreements += 1;
+                    if reported < 3 && sobs[*i].oracle.is_none() {
+                        reported += 1;
+                        report.violation(
+                            "model-mismatch",
+                            format!("model `{}` vs implementation `{got}` on `{req}`", smodel[n]),
+                            serde_json::json!({"family": "lookup", "values": [encode(&scases[*i].case.map), encode(&scases[*i].case.probe)], "implementation": got,
+                                "detail": {"stage": format!("correspondence:lookup:{route}"), "model": smodel[n]}}),
+                        );
+                    }
+                }
+            }
+        }
+        report.count_n("serde.lookup_cases", scases.len() as u64);
+    }
+
     // ---------------------------------------------------------------- P. string provenance
     // the same text obtained in every way a template can obtain it must be one value for ==,
     // the order, `in`, unique and map lookup (the representation only exists inside the engine)
